@@ -44,6 +44,10 @@ def gen_cases(seed, tier):
     cases = []
 
     def add(fam, dom, **kw):
+        if fam in ("prim", "comp") and len(cases) % 6 == 1 and "product" not in geo.spec_ops(dom["spec"]) \
+                and "ratio" not in dom["info"].get("relations", []):
+            S = float(sampling.SCALES[(len(cases) // 6) % len(sampling.SCALES)])    # the same shape at another length scale
+            dom = dict(dom, spec=geo.scale_spec(dom["spec"], S), info=dict(dom["info"], scale=S))
         c = {"fam": fam, "spec": dom["spec"], "rows": dom["rows"], "info": dom["info"], "k": dom["k"],
              "seed": int(rng.integers(0, 2 ** 31)), "N": 20000 if quick else 150000}
         c.update(kw)
@@ -492,7 +496,7 @@ def run_uniform(case, res):
     traits = spec_traits(case["spec"], node, env0, rng)
     mech = {"fam": case["fam"], "root": info["kind"], "target": case["target"], "mode": case["mode"],
             "nsmall": case.get("nsmall") if case["mode"] == "small" else None, "dep": bool(info["dep"]),
-            "dep_product": bool(isinstance(node, geo.Product) and node.dependent()),
+            "dep_product": bool(isinstance(node, geo.Product) and node.dependent()), "scale": info.get("scale", 1.0),
             "abut": any("abut" in r for r in info.get("relations", [])), **traits}
     try:
         first = _uniform_test(case, D, node, Pp, env, k, case["N"], case["seed"], rng)
